@@ -6,6 +6,7 @@ import JV.Drv.MergePatch
 import JV.Drv.Pointer
 import JV.Drv.Patch
 import JV.Drv.Number
+import JV.Drv.JsonText
 open JV Drv
 
 def dispatch (line : String) : String :=
@@ -15,6 +16,7 @@ def dispatch (line : String) : String :=
   | "patch" :: rest => patchLine rest
   | "num" :: rest => numberLine rest
   | "big" :: rest => bigLine rest
+  | "jt" :: rest => jsonTextLine rest
   | [] => ""
   | _ => "bad-op"
 
